@@ -8,7 +8,7 @@
    checked on generated histories against the logical reference state of tools/session_spec.py (on the implementation) and
    refuted for two known defects (Findings/C09.v).  Stage 1 schema space of DESIGN Appendix A. *)
 Require Import PonyV.Model.SessionBase PonyV.Model.SessionDb PonyV.Model.Session.
-Require Import PonyV.Proofs.SessionDbPd PonyV.Proofs.SessionTxn PonyV.Proofs.SessionQueue.
+Require Import PonyV.Proofs.SessionDbPd PonyV.Proofs.SessionTxn PonyV.Proofs.SessionQueue PonyV.Proofs.SessionQueueInv.
 
 (* changes made after the last commit are never published by anything but a commit (or leaving the db_session, which commits):
    every other operation - including rollback, failing operations and every read with its auto-flush - leaves the committed database alone *)
@@ -53,11 +53,32 @@ Print Assumptions C09_commit_publishes_transaction.
 (* flush completeness at the level of statuses: from a state in which every object that has something to save (status created /
    modified / marked_to_delete) sits in objects_to_save at its _save_pos_ (Jq), a flush that succeeds leaves no such object:
    each was inserted / updated / deleted (principals first), none was skipped.  Jq itself is checked on the implementation after
-   every operation (oracle queue-not-queued; violated at the known dirty sites), it is not proved for all histories. *)
+   every operation (oracle queue-not-queued) and proved for all clean histories of the model below. *)
 Theorem C09_flush_saves_every_queued_object : forall sch s s' u, Jq s -> flush sch s = Ok s' u -> s_modified s = true ->
   forall o ob, get_obj s' o = Some ob -> pending (o_st ob) = false.
 Proof. exact flush_saves_every_queued_object. Qed.
 Print Assumptions C09_flush_saves_every_queued_object.
+
+(* the premise of the previous theorem, for ALL histories: in every history that reached no dirty site, an object with something to
+   save (other than none: no object is exempt) has a _save_pos_, the slot at an object's _save_pos_ holds that object, and only
+   objects with something to save have a _save_pos_ (Jx None).  The dirty sites are exactly the known findings queue-not-queued@... *)
+Theorem C09_queue_invariant_except_known : forall sch, wf_schema sch = true ->
+  forall ops, s_dirty (run sch ops) = O -> Jx None (run sch ops).
+Proof. exact queue_invariant_all_histories. Qed.
+Print Assumptions C09_queue_invariant_except_known.
+
+(* the inductive step, from every state (with the C11 invariants it uses for Entity.__init__) *)
+Theorem C09_queue_step_preserves : forall sch, wf_schema sch = true ->
+  forall s op, SessionIdx.Pk sch s -> PQ s -> PQ (fst (step sch s op)).
+Proof. exact PQ_step. Qed.
+Print Assumptions C09_queue_step_preserves.
+
+(* hence: in a clean history a flush that succeeds saves every object the program created, changed or deleted *)
+Theorem C09_flush_completes_except_known : forall sch, wf_schema sch = true ->
+  forall ops s' u, s_dirty (run sch ops) = O -> flush sch (run sch ops) = Ok s' u -> s_modified (run sch ops) = true ->
+  forall o ob, get_obj s' o = Some ob -> pending (o_st ob) = false.
+Proof. exact flush_completes_all_histories. Qed.
+Print Assumptions C09_flush_completes_except_known.
 
 (* non-vacuity: create, commit, update + delete + create, roll back, update, commit: the committed rows are those of the two commits *)
 Example C09_nonvacuous :
